@@ -17,12 +17,12 @@ TBuild == /\ Ev("build")
                                /\ Build(cfg)
           /\ last'.compiled = ToSet(Trace[l].compiled)
           /\ last'.recomputed = ToSet(Trace[l].recomputed)
-TEdit == Ev("edit") /\ Edit(Trace[l].p)
+TEdit == Ev("edit") /\ (IF Trace[l].kind = "body" THEN EditBody(Trace[l].p) ELSE EditApi(Trace[l].p))
 TDamage == /\ Ev("damage")
-           /\ \E e \in gcache : e.key.p = Trace[l].p /\ e.key.s = src[e.key.p] /\ DamageEntry(e, Trace[l].kind)
+           /\ \E e \in gcache : e.p = Trace[l].p /\ DamageEntry(e, Trace[l].kind)
 TWipe == Ev("wipe") /\ WipeStore(Trace[l].which)
 TLoseGo == /\ Ev("losego")
-           /\ \E e \in gocache : e.aid.p = Trace[l].p /\ e.aid.s = src[e.aid.p] /\ LoseGo(e)
+           /\ \E e \in gocache : e.aid.p = Trace[l].p /\ LoseGo(e)
 TraceNext == TBuild \/ TEdit \/ TDamage \/ TWipe \/ TLoseGo
 TraceSpec == TraceInit /\ [][TraceNext]_tvars
 TraceAccepted == TLCGet("stats").diameter - 1 = Len(Trace)
